@@ -33,6 +33,9 @@ const (
 	tByte
 	tBytes
 	tBool
+	tBytesList // ...[]byte, [][]byte parameters
+	tXml       // xmlSig{localName, xmlns}: a pair of byte strings
+	tXmlList   // ...xmlSig
 )
 
 func (t grTy) coq() string {
@@ -41,11 +44,19 @@ func (t grTy) coq() string {
 		return "bytes"
 	case tBool:
 		return "bool"
+	case tBytesList:
+		return "(list bytes)"
+	case tXml:
+		return "(bytes * bytes)"
+	case tXmlList:
+		return "(list (bytes * bytes))"
 	}
 	return "Z"
 }
 
 type grFn struct {
+	body    []ast.Stmt
+	results *ast.FieldList
 	decl   *ast.FuncDecl
 	pnames []string
 	ptys   []grTy
@@ -89,10 +100,22 @@ func grTypeOf(x ast.Expr) grTy {
 			return tBool
 		case "string", "readBuf":
 			return tBytes
+		case "xmlSig":
+			return tXml
 		}
 	case *ast.ArrayType:
 		if id, ok := v.Elt.(*ast.Ident); ok && v.Len == nil && id.Name == "byte" {
 			return tBytes
+		}
+		if v.Len == nil && grTypeOf(v.Elt) == tBytes {
+			return tBytesList
+		}
+	case *ast.Ellipsis:
+		switch grTypeOf(v.Elt) {
+		case tBytes:
+			return tBytesList
+		case tXml:
+			return tXmlList
 		}
 	}
 	return tUnk
@@ -198,6 +221,16 @@ func (e *grEnv) pure(x ast.Expr) (string, grTy, bool) {
 			return s, t, true
 		}
 		return "", tUnk, false
+	case *ast.SelectorExpr:
+		if id, ok := v.X.(*ast.Ident); ok && e.ty[id.Name] == tXml {
+			switch v.Sel.Name {
+			case "localName":
+				return "(fst " + vname(id.Name) + ")", tBytes, true
+			case "xmlns":
+				return "(snd " + vname(id.Name) + ")", tBytes, true
+			}
+		}
+		grf("selector outside the fragment")
 	case *ast.IndexExpr, *ast.SliceExpr:
 		return "", tUnk, false
 	}
@@ -774,8 +807,11 @@ func (e *grEnv) comp(stmts []ast.Stmt, k func() string) string {
 		}
 		grf("branch statement %s", v.Tok)
 	case *ast.IfStmt:
-		if v.Init != nil {
-			grf("if with init")
+		if v.Init != nil { // the variable lives in the if statement only; names are unique enough for a shadowing let
+			init := v.Init
+			cp := *v
+			cp.Init = nil
+			return e.comp(append([]ast.Stmt{init, &cp}, rest...), k)
 		}
 		// if !b.advance(n) { .. }
 		if u, ok := v.Cond.(*ast.UnaryExpr); ok && u.Op == token.NOT {
@@ -845,6 +881,9 @@ func (e *grEnv) comp(stmts []ast.Stmt, k func() string) string {
 				return ""
 			}, v.Key, v.Body.List, next)
 		}
+		if id, ok := v.X.(*ast.Ident); ok && (e.ty[id.Name] == tBytesList || e.ty[id.Name] == tXmlList) {
+			return e.listLoop(v, id.Name, next)
+		}
 		return e.rangeLoop(v, next)
 	case *ast.ForStmt:
 		if n, iv, ok := e.constFor(v); ok {
@@ -852,6 +891,11 @@ func (e *grEnv) comp(stmts []ast.Stmt, k func() string) string {
 				e.declare(iv, tInt)
 				return "let " + vname(iv) + " := " + zlit(int64(i)) + " in\n  "
 			}, nil, v.Body.List, next)
+		}
+		if v.Init == nil && v.Cond != nil {
+			if _, _, pureCond := e.tryPure(v.Cond); !pureCond || v.Post != nil {
+				return e.whileRes(v, next)
+			}
 		}
 		return e.whileLoop(v, next)
 	case *ast.ExprStmt:
@@ -865,7 +909,11 @@ func (e *grEnv) pureAssignBlock(stmts []ast.Stmt) ([][2]string, bool) {
 	var out [][2]string
 	for _, s := range stmts {
 		a, ok := s.(*ast.AssignStmt)
-		if !ok || a.Tok != token.ASSIGN || len(a.Lhs) != 1 || len(a.Rhs) != 1 {
+		if !ok || len(a.Lhs) != 1 || len(a.Rhs) != 1 {
+			return nil, false
+		}
+		op, isOp := opOfAssign(a.Tok)
+		if a.Tok != token.ASSIGN && !isOp {
 			return nil, false
 		}
 		id, ok := a.Lhs[0].(*ast.Ident)
@@ -888,9 +936,12 @@ func (e *grEnv) pureAssignBlock(stmts []ast.Stmt) ([][2]string, bool) {
 				return nil, false
 			}
 		}
-		r, _, ok := e.pure(a.Rhs[0])
+		r, tr, ok := e.pure(a.Rhs[0])
 		if !ok {
 			return nil, false
+		}
+		if isOp {
+			r, _ = e.binop(op, vname(id.Name), e.ty[id.Name], r, tr)
 		}
 		out = append(out, [2]string{id.Name, r})
 	}
@@ -1053,6 +1104,138 @@ func (e *grEnv) rangeLoop(v *ast.RangeStmt, next func() string) string {
 	})
 }
 
+// pure() without the failure for constructs outside the fragment
+func (e *grEnv) tryPure(x ast.Expr) (s string, t grTy, ok bool) {
+	defer func() {
+		if r := recover(); r != nil {
+			if _, isFail := r.(glFail); isFail {
+				s, t, ok = "", tUnk, false
+				return
+			}
+			panic(r)
+		}
+	}()
+	return e.pure(x)
+}
+
+// for _, s := range LIST-PARAMETER { body }: Model/GoRes.list_loop over a list of byte strings (or of xmlSig pairs)
+func (e *grEnv) listLoop(v *ast.RangeStmt, list string, next func() string) string {
+	if v.Tok != token.DEFINE {
+		grf("range without :=")
+	}
+	if id, ok := v.Key.(*ast.Ident); !ok || id.Name != "_" {
+		grf("range with an index over a list parameter")
+	}
+	el := tBytes
+	if e.ty[list] == tXmlList {
+		el = tXml
+	}
+	saved := copyMap(e.ty)
+	live := e.assigned(v.Body.List)
+	vn := e.fresh("s")
+	tup := func() string {
+		if len(live) == 0 {
+			return "tt"
+		}
+		var as []string
+		for _, n := range live {
+			as = append(as, vname(n))
+		}
+		if len(as) == 1 {
+			return as[0]
+		}
+		return "(" + strings.Join(as, ", ") + ")"
+	}
+	pat := func() string {
+		if len(live) == 0 {
+			return "_"
+		}
+		if len(live) == 1 {
+			return vname(live[0])
+		}
+		return "'" + tup()
+	}
+	pre := ""
+	if id, ok := v.Value.(*ast.Ident); ok && id.Name != "_" {
+		e.ty[id.Name] = el
+		pre = "let " + vname(id.Name) + " := " + vn + " in "
+	}
+	sb, sc, sr := e.brk, e.cont, e.ret
+	e.brk = func() string { return "Val (Break " + tup() + ")" }
+	e.cont = func() string { return "Val (Next " + tup() + ")" }
+	e.ret = func(vals []string) string {
+		if len(vals) == 1 {
+			return "Val (Return " + vals[0] + ")"
+		}
+		return "Val (Return (" + strings.Join(vals, ", ") + "))"
+	}
+	body := e.comp(v.Body.List, e.cont)
+	e.brk, e.cont, e.ret = sb, sc, sr
+	e.ty = saved
+	after := next()
+	retk := "Val r"
+	if e.ret != nil {
+		retk = e.ret([]string{"r"})
+	}
+	return "lr <- list_loop (fun " + vn + " " + pat() + " => " + pre + "\n    " + body + ") " + vname(list) + " " + tup() + " ;;\n  " +
+		"match lr with\n  | Returned r => " + retk + "\n  | Done " + strings.TrimPrefix(pat(), "'") + " =>\n  " + after + "\n  end"
+}
+
+// for ; cond; post { body } where the condition indexes the input: Model/GoRes.while_res; the fuel is the total
+// length of the byte slices in scope plus one (each of these loops moves an index over one of them); exhausted fuel
+// is Panic and excluded by theorem
+func (e *grEnv) whileRes(v *ast.ForStmt, next func() string) string {
+	if v.Init != nil || v.Cond == nil {
+		grf("for statement outside the fragment")
+	}
+	stmts := append([]ast.Stmt{}, v.Body.List...)
+	if v.Post != nil {
+		stmts = append(stmts, v.Post)
+	}
+	live := e.assigned(stmts)
+	if len(live) == 0 {
+		grf("loop without state")
+	}
+	tup := func() string {
+		var as []string
+		for _, n := range live {
+			as = append(as, vname(n))
+		}
+		if len(as) == 1 {
+			return as[0]
+		}
+		return "(" + strings.Join(as, ", ") + ")"
+	}
+	pat := tup()
+	if len(live) > 1 {
+		pat = "'" + pat
+	}
+	var lens []string
+	var names []string
+	for n, t := range e.ty {
+		if t == tBytes {
+			names = append(names, n)
+		}
+	}
+	sort.Strings(names)
+	for _, n := range names {
+		lens = append(lens, "length "+vname(n))
+	}
+	fuel := "(S (" + strings.Join(lens, " + ") + "))%nat"
+	if len(lens) == 0 {
+		fuel = "64%nat"
+	}
+	sb, sc, sr := e.brk, e.cont, e.ret
+	e.brk = func() string { grf("break in an indexed loop"); return "" }
+	e.ret = func([]string) string { grf("return in an indexed loop"); return "" }
+	cond := e.cexp(v.Cond, func(c string, _ grTy) string { return "Val " + c })
+	e.cont = func() string { return "Val " + tup() }
+	body := e.comp(stmts, e.cont)
+	e.brk, e.cont, e.ret = sb, sc, sr
+	return "wr <- while_res " + fuel + " (fun " + pat + " => " + cond + ") (fun " + pat + " =>\n    " + body + ") " + tup() + " ;;\n  " +
+		"let " + pat + " := wr in\n  " + next()
+}
+
 // for cond { body } over integer locals: while_loop with fuel (the number of rounds the body can run is bounded
 // by a constant of the function; exhausted fuel yields Panic here and is excluded by theorem)
 func (e *grEnv) whileLoop(v *ast.ForStmt, next func() string) string {
@@ -1132,12 +1315,37 @@ var grWanted = []string{
 	"zipContains", "Docx", "Xlsx", "Pptx", "Jar", "APK", "CRX",
 	"vintWidth", "isFileTypeNamePresent", "isMatroskaFileTypeMatched", "Mkv", "WebM",
 	"tarParseOctal", "tarChksum", "Tar",
+	"isWS", "trimLWS", "trimRWS", "firstLine", "ciCheck", "ciPrefix", "markupCheck", "markup", "xmlCheck", "xml", "shebangCheck", "shebang",
+}
+
+// a combinator `func f(outer..) Detector { return func(raw []byte, limit uint32) bool { BODY } }` is read as the
+// function of the outer and the inner parameters with BODY as its body
+func closureOf(fd *ast.FuncDecl) *ast.FuncLit {
+	if fd.Body == nil || len(fd.Body.List) != 1 {
+		return nil
+	}
+	r, ok := fd.Body.List[0].(*ast.ReturnStmt)
+	if !ok || len(r.Results) != 1 {
+		return nil
+	}
+	fl, _ := r.Results[0].(*ast.FuncLit)
+	return fl
 }
 
 func grSignature(fd *ast.FuncDecl) (*grFn, string) {
 	fn := &grFn{decl: fd}
 	i := 0
-	for _, f := range fd.Type.Params.List {
+	params := append([]*ast.Field{}, fd.Type.Params.List...)
+	results := fd.Type.Results
+	if fl := closureOf(fd); fl != nil {
+		params = append(params, fl.Type.Params.List...)
+		results = fl.Type.Results
+		fn.body = fl.Body.List
+	} else if fd.Body != nil {
+		fn.body = fd.Body.List
+	}
+	fn.results = results
+	for _, f := range params {
 		t := grTypeOf(f.Type)
 		if t == tUnk {
 			return nil, "parameter type outside the fragment"
@@ -1152,10 +1360,10 @@ func grSignature(fd *ast.FuncDecl) (*grFn, string) {
 			fn.ptys = append(fn.ptys, t)
 		}
 	}
-	if fd.Type.Results == nil {
+	if results == nil {
 		return nil, "no result"
 	}
-	for _, f := range fd.Type.Results.List {
+	for _, f := range results.List {
 		t := grTypeOf(f.Type)
 		if t == tUnk {
 			return nil, "result type outside the fragment"
@@ -1237,8 +1445,8 @@ func writeSrcFuncs(repo, outDir string) bool {
 				}()
 				pre := ""
 				// named results are locals initialised to the zero value
-				if fn.decl.Type.Results != nil {
-					for _, f := range fn.decl.Type.Results.List {
+				if fn.results != nil {
+					for _, f := range fn.results.List {
 						for _, rn := range f.Names {
 							t := grTypeOf(f.Type)
 							e.ty[rn.Name] = t
@@ -1247,7 +1455,7 @@ func writeSrcFuncs(repo, outDir string) bool {
 						}
 					}
 				}
-				body = pre + e.comp(fn.decl.Body.List, nil)
+				body = pre + e.comp(fn.body, nil)
 			}()
 			if failed != "" {
 				delete(fns, n)
